@@ -96,7 +96,6 @@ var (
 	runStep    int           // instruction index within the current run
 	stepLimit  int           // >0: abort the run (liveness bound) when runStep exceeds it
 	crashFired int
-	schedYield func(op byte) // schedsim: yield to the scheduler at every instruction
 )
 
 // InjectedCrash is the panic value used for a crash at an instruction boundary.
@@ -109,8 +108,8 @@ type LivenessAbort struct{ Steps int }
 
 func installHook() {
 	vm.SimStep = func(m *vm.VM, pp int, op byte) {
-		if schedYield != nil {
-			schedYield(op)
+		if S != nil {
+			schedHook(op)
 			return
 		}
 		stepCount++
